@@ -13,9 +13,10 @@ cmake --build "$WT/_build" >>"$LOG" 2>&1 || { echo "BUILD-FAILS-WITH-CHANGE" | t
 T=$("$WT/_build/test/spqlios-test" 2>&1 | tail -3); echo "$T" >> "$LOG"
 echo "$T" | grep -q 'PASSED' && ! echo "$T" | grep -q 'FAILED' && tests=pass || tests=fail
 sh "$OUT/run_demo.sh" "$WT" >>"$LOG" 2>&1; with=$?
-git -C "$WT" stash -q; cmake --build "$WT/_build" >>"$LOG" 2>&1
+# (not `git stash`: the stash is shared by all worktrees of a repository and collides with concurrently working agents)
+git -C "$WT" apply -R "$OUT/patch.diff"; cmake --build "$WT/_build" >>"$LOG" 2>&1
 sh "$OUT/run_demo.sh" "$WT" >>"$LOG" 2>&1; without=$?
-git -C "$WT" stash pop -q
+git -C "$WT" apply "$OUT/patch.diff"
 echo "tests_with_change=$tests demo_with_change_rc=$with demo_without_change_rc=$without" | tee -a "$LOG"
 if [ "$tests" = pass ] && [ "$with" != 0 ] && [ "$without" = 0 ]; then
   D=/verif/seeded/$NAME; mkdir -p "$D"; cp "$OUT/patch.diff" "$D/"; cp "$OUT"/demo.* "$OUT/run_demo.sh" "$D/" 2>/dev/null
